@@ -28,6 +28,7 @@ CTX_EVENTS = ['method_context_created', 'method_context_closed', 'method_call',
               'method_return_object', 'method_exception_object',
               'method_return_document', 'method_exception_document',
               'method_return_string', 'method_exception_string', 'method_redirect']
+RAISING_FIN = ('raise_closed', 'raise_wsgiclose')
 WSGI_EVENTS = ['wsgi_call', 'wsgi_return', 'wsgi_exception', 'wsgi_close']
 UNIT = 160         # bytes per abstract length unit of the wsgi scenarios
 SECRET = 'S3CR3T-7f3a9'
@@ -294,6 +295,12 @@ def run(s):
         if s['inj'].get('fin') == 'raise_wsgiclose':
             def boom_wclose(ctx): raise Boom('wsgi_close listener')
             w.event_manager.add_listener('wsgi_close', boom_wclose)
+        if s['inj'].get('fin') == 'rewrite':
+            def trailer(ctx):
+                import itertools
+                o = ctx.out_string
+                ctx.out_string = (list(o) + [b'\n<!-- t -->']) if isinstance(o, (list, tuple)) else itertools.chain(o, [b'\n<!-- t -->'])
+            w.event_manager.add_listener('wsgi_return', trailer)
         inp = CountingInput(body, log, U)
         env.update({'wsgi.url_scheme': 'http', 'SERVER_NAME': 'x', 'SERVER_PORT': '80',
                     'wsgi.input': inp})
@@ -413,8 +420,8 @@ def run(s):
     rec['obs'] = log
     rec['k'] = {
         'tr': 'base' if s['cfg']['tr'] == 'null' else s['cfg']['tr'], 'rpc': s['req'].get('kind', 'rpc') == 'rpc', 'soap': s['cfg']['family'] in ('soap11', 'soap12'),
-        'done': (not any(e[0] == 'escape' for e in log)) or (s['inj'].get('fin', 'ok') != 'ok' and log[-1] == ['io', 'iterclose']),
-        'mayEscape': s['inj'].get('fin', 'ok') != 'ok', 'wcloseExpected': s['inj'].get('fin', 'ok') != 'raise_closed',
+        'done': (not any(e[0] == 'escape' for e in log)) or (s['inj'].get('fin', 'ok') in RAISING_FIN and log[-1] == ['io', 'iterclose']),
+        'mayEscape': s['inj'].get('fin', 'ok') in RAISING_FIN, 'wcloseExpected': s['inj'].get('fin', 'ok') != 'raise_closed',
         'nodoc': s['cfg']['tr'] == 'null',
         'fault': err is not None, 'fnOk': state['fnOk'], 'redirect': s['inj']['fn'] == 'redirect' and ['fn', 'call'] in log,
         'infault': ierr is not None,
